@@ -120,11 +120,6 @@ inline std::string maskNames(uint32_t m, bool withAscii = false) {
     std::string r; for (int k = withAscii ? 0 : 1; k < C_N; ++k) if (m & (1u << k)) { if (!r.empty()) r += "+"; r += CLS_NAME[k]; }
     return r;
 }
-// replace every character of class k by 'x' (a supplementary character by "xx": same number of UTF-16 units)
-inline XS replaceClass(const XS& s, int k) {
-    XS r; for (auto c : decode(s)) { if (classOf(c) == k) { r += u'x'; if (c >= 0x10000) r += u'x'; } else appendCp(r, c); }
-    return r;
-}
 inline bool isXmlWs(uint32_t c) { return c == 0x20 || c == 9 || c == 10 || c == 13; }
 inline bool xml10Char(uint32_t c) { return c == 9 || c == 10 || c == 13 || (c >= 0x20 && c <= 0xD7FF) || (c >= 0xE000 && c <= 0xFFFD) || (c >= 0x10000 && c <= 0x10FFFF); }
 
@@ -155,6 +150,27 @@ inline EncInfo& encInfo(const std::string& name) {
     ucnv_setFromUCallBack(c, UCNV_FROM_U_CALLBACK_STOP, nullptr, nullptr, nullptr, &ec);
     e.known = true; e.all = false; e.cnv = c; e.family = "other";
     return e;
+}
+
+
+// ------------------------------------------------------------------ classes used in violation signatures: what the serializers branch on
+// (relative to the target encoding and XML version), coarser than the classes above
+enum SCls { S_ASCII, S_LTAMP, S_GT, S_QUOT, S_RSB, S_TAB, S_LF, S_CR, S_C0, S_NUL, S_C1, S_NEL, S_LSEP, S_NONASCII, S_SUPP, S_UNENC, S_SURR, S_NONCHAR, S_N };
+static const char* const SCLS_NAME[S_N] = { "ascii", "lt-amp", "gt", "quot", "rsb", "TAB", "LF", "CR", "c0", "nul", "c1", "NEL", "LSEP", "nonascii", "supp", "unencodable", "surrogate", "nonchar" };
+inline SCls sigClassOf(uint32_t c, EncInfo& enc, bool v11) {
+    if (c == 0) return S_NUL; if (c == 9) return S_TAB; if (c == 10) return S_LF; if (c == 13) return S_CR; if (c < 0x20) return S_C0;
+    if (c == '<' || c == '&') return S_LTAMP; if (c == '>') return S_GT; if (c == '"' || c == '\'') return S_QUOT; if (c == ']') return S_RSB;
+    if (c < 0x7F) return S_ASCII;
+    if (c >= 0xD800 && c <= 0xDFFF) return S_SURR; if (c == 0xFFFE || c == 0xFFFF) return S_NONCHAR;
+    if (v11) { if (c == 0x85) return S_NEL; if (c <= 0x9F) return S_C1; if (c == 0x2028) return S_LSEP; }
+    if (!enc.can(c)) return S_UNENC;
+    return c >= 0x10000 ? S_SUPP : S_NONASCII;
+}
+inline uint32_t sigMask(const XS& s, EncInfo& enc, bool v11) { uint32_t m = 0; for (auto c : decode(s)) m |= 1u << sigClassOf(c, enc, v11); return m; }
+// replace every character of signature class k by 'x' (a supplementary character by "xx": same number of UTF-16 units)
+inline XS replaceSigClass(const XS& s, int k, EncInfo& enc, bool v11) {
+    XS r; for (auto c : decode(s)) { if (sigClassOf(c, enc, v11) == k) { r += u'x'; if (c >= 0x10000) r += u'x'; } else appendCp(r, c); }
+    return r;
 }
 
 } // namespace c04
